@@ -422,7 +422,8 @@ class Check:
 
     def finish(self):
         """Print KNOWN-FINDING / VIOLATION lines, write evidence, exit."""
-        if getattr(self, "coq_broken", None) and not self.viol:
+        if getattr(self, "coq_broken", None) and not any(
+                match_known(self.known, self.pid, v["signature"]) is None for v in self.viol):
             grp, log = self.coq_broken
             self.violation("proof-broken", "Coq development coq/%s no longer checks:\n%s" % (grp, log[-1200:]),
                            replay={"broken": "coq/" + grp, "log": log[-3000:]}, found_input=False)
